@@ -1,0 +1,13 @@
+//go:build !verif
+// +build !verif
+
+package xmpp
+
+import "net"
+
+// Verification hooks are compiled out unless the "verif" build tag is set.
+const verifEnabled = false
+
+func vpoint(name string, kv ...interface{}) {}
+
+func verifWrapConn(c net.Conn) net.Conn { return c }
